@@ -92,6 +92,14 @@ def run(ctx, spec, units, violations, inconcl, meta):
                             'smt_queries': d['queries'], 'solver_s': d['solver_s'], 'obligations_discharged': d['samples'][:5],
                             'functions_interpreted': d['functions'][:8]}}
             units.append(u)
+            if group.get('advisory'):
+                # structural (delegation) obligations: an impl that is no longer a plain delegation is "not discharged", not a verdict -
+                # the bounded K harnesses with their independent model decide the property
+                if d['verdict'] != 'pass':
+                    u['verdict'] = 'not-discharged'
+                    u['sample']['not_discharged'] = d['reason'] or '; '.join(f['kind'] for f in d['findings'])[:300]
+                    mmeta.setdefault('not_discharged', []).append({'scenario': sc, 'why': u['sample']['not_discharged']})
+                continue
             if d['verdict'] == 'inconclusive':
                 inconcl.append(('M:' + sc, d['reason']))
             for f in d['findings']:
